@@ -7,6 +7,9 @@
   * `rowsum_*` (C02): stage times are `x + c_j h` with `0 ≤ c_j ≤ 1`, hence inside the step.
   RK23/RK4 landing, Radau/BDF, and the handler's sample bookkeeping are covered by co-simulation and the interval
   monitor (which found and led to the repair of eight defects, see known_findings.json).
+  * RK23 and RK4 (`Proofs/CtlRkField.lean`): `rk23Adjust_lands`, `rk23Loop_success_at_xend`, `rk4Loop_success_at_xend` —
+    the landing step ends at xend and Success is reported only there, for every right-hand side and observer.
 -/
 import IvpModel.Proofs.CtlField
+import IvpModel.Proofs.CtlRkField
 import IvpModel.Props.C02
